@@ -43,6 +43,7 @@ func (d *ManyToOne) Set(data GenericDataType) {
 		writeIndex := atomic.AddUint64(&d.writeIndex, 1)
 		VerifAt("m2o.set.claimed", writeIndex)
 		idx := writeIndex % uint64(len(d.buffer))
+	retry:
 		old := atomic.LoadPointer(&d.buffer[idx])
 		VerifAt("m2o.set.loaded", writeIndex)
 
@@ -65,7 +66,9 @@ func (d *ManyToOne) Set(data GenericDataType) {
 		if !atomic.CompareAndSwapPointer(&d.buffer[idx], old, unsafe.Pointer(newBucket)) {
 			VerifAt("m2o.set.casfailed", writeIndex)
 			log.Println("Diode set collision: consider using a larger diode")
-			continue
+			// Retry the same position: abandoning it after the reader emptied
+			// the slot would leave a hole the reader waits on forever.
+			goto retry
 		}
 
 		VerifAt("m2o.set.stored", writeIndex)
